@@ -19,7 +19,7 @@ type nativeCase struct {
 	Entry    string              `json:"entry"`
 	Vars     map[string]modelVal `json:"vars"`
 	Thorough bool                `json:"thorough"`
-	Sched    []int               `json:"sched,omitempty"`
+	Sched    []int64             `json:"sched,omitempty"`
 }
 
 type nativeAssert struct {
@@ -136,8 +136,21 @@ func runNative(bin, workDir, tag string, cases []nativeCase) (map[int]nativeResu
 }
 
 // compareNative checks a native result against what the symbolic run predicts.
-func compareNative(ex *nativeExpect, r nativeResult) []string {
+func compareNative(ex *nativeExpect, r nativeResult, loose bool) []string {
 	var diffs []string
+	if loose {
+		// schedule-dependent harness (dag): the native run follows the recorded
+		// delivery order only approximately; compare what cannot depend on it
+		if r.End != "return" && ex.End == "return" {
+			diffs = append(diffs, fmt.Sprintf("end: symbolic %s, native %s (%s)", ex.End, r.End, r.Panic))
+		}
+		for _, a := range r.Asserts {
+			if !a.OK {
+				diffs = append(diffs, "ASSERT-FAILS-NATIVELY "+a.ID)
+			}
+		}
+		return diffs
+	}
 	wantEnd := map[string]string{"return": "return", "exit": "exit", "define-panic": "panic", "run-panic": "panic"}[ex.End]
 	if r.End != wantEnd {
 		diffs = append(diffs, fmt.Sprintf("end: symbolic %s, native %s (%s)", ex.End, r.End, r.Panic))
